@@ -130,7 +130,7 @@ func clip(s string) string {
 // ---- loose, schema-shaped generator (values of the right and of the wrong kind)
 
 func strs(rt *rapid.T) gen.Node {
-	return rapid.SampledFrom([]string{"a", "b", "echo hi", "true", "x y", "", "1s", "10", "t1", "p1", "cx", "*.go", "{{ .x }}", "{{", "é", "-"}).Draw(rt, "str")
+	return rapid.SampledFrom([]string{"a", "b", "echo hi", "true", "x y", "", "1s", "10", "t1", "p1", "cx", "*.go", "{{ .x }}", "{{", "é", "-", " ", "\t", "  \n", "/bin/sh -c"}).Draw(rt, "str")
 }
 
 func strOrList(rt *rapid.T) gen.Node {
@@ -261,7 +261,14 @@ func genContext(rt *rapid.T) gen.Map {
 	}
 	d = maybe(rt, d, "env", 4, func() gen.Node { return smap(rt) })
 	d = maybe(rt, d, "variables", 4, func() gen.Node { return smap(rt) })
-	d = maybe(rt, d, "executable", 4, func() gen.Node { return gen.Map{{K: "bin", V: "/bin/sh"}, {K: "args", V: gen.List{"-c"}}} })
+	d = maybe(rt, d, "executable", 4, func() gen.Node {
+		if hostility > 0 && rapid.Bool().Draw(rt, "odd_executable") {
+			// shapes a user might write instead of the bin/args map
+			return rapid.SampledFrom([]gen.Node{strs(rt), gen.List{"/bin/sh", "-c"}, gen.Map{{K: "args", V: gen.List{"-c"}}},
+				gen.Map{{K: "bin", V: strs(rt)}, {K: "args", V: strs(rt)}}, gen.Map{{K: "bin", V: gen.List{"/bin/sh"}}}}).Draw(rt, "executable")
+		}
+		return gen.Map{{K: "bin", V: "/bin/sh"}, {K: "args", V: gen.List{"-c"}}}
+	})
 	d = maybe(rt, d, "quote", 4, func() gen.Node { return "'" })
 	return d
 }
@@ -329,7 +336,7 @@ func genConfig(rt *rapid.T, imports []gen.Node) (gen.Map, []string, []string) {
 // ---- structured mutation of the tree
 
 var wrong = []gen.Node{nil, int64(1), "s", gen.List{}, gen.Map{}, gen.List{int64(1)}, gen.Map{{K: "k", V: int64(1)}}, true, gen.List{nil},
-	gen.Map{{K: "k", V: nil}}, gen.List{gen.List{}}, 1.5, int64(-1), "", gen.Map{{K: "0", V: "x"}}}
+	gen.Map{{K: "k", V: nil}}, gen.List{gen.List{}}, 1.5, int64(-1), "", gen.Map{{K: "0", V: "x"}}, " ", "\t", "a b"}
 
 type path []any
 
